@@ -1,5 +1,5 @@
 """Verdict for the factory-engine properties (C03, C08, C09, C10, C15-C18, C20)."""
-import os
+import os, re
 from . import common, factory_engine as fe
 
 PROPS = fe.FACTORY_PROPS
@@ -48,6 +48,8 @@ def run(prop, tier, seed):
                                    "step": v["l"], "outcome": tr["outcome"], "err": tr.get("err", ""),
                                    "err_class": tr.get("err", "").split(":")[0] + (":" + tr.get("err", "").split("'")[-2]
                                                                                     if tr.get("err", "").count("'") >= 2 else ""),
+                                   # the message up to its first colon, without numbers: what went wrong, not where
+                                   "err_msg": re.sub(r"[0-9]+", "#", (tr.get("err", "").split(": ", 1) + [""])[1].split(":")[0])[:60],
                                    "cfg": tr["cfg"], "orig": tr.get("orig"), "expect": tr["expect"],
                                    "events": tr["ev"][max(0, (v["l"] or 0) - 25):(v["l"] or 0)]})
     # one violation per (clause, family) is enough for the report; keep the count
